@@ -275,6 +275,8 @@ def run(ctx) -> None:
                    'per construction year at the front of the four price series, after all operating-year consumers')
     ctx.rule('B4', 'ITC lowers capital cost by rate x cost; grants, incentives, fees, tax relief change totals by exactly their amounts '
                    '(identities T1/T2 of C03, re-evaluated here)')
+    ctx.rule('B5', 'a supplied credit / price figure equal to its default still counts as provided (reader sets .Provided; C07 V9)')
+    ctx.rule('B6', 'the inputs handed to BuildPricingModel / BuildPTCModel are assigned by the reader only')
     check_b1(ctx)
     check_b2(ctx)
     repo = ctx.repo
@@ -293,4 +295,39 @@ def run(ctx) -> None:
             o['rule'] = 'B4'
             keep.append(o)
     ctx.obligations[before:] = keep
+    # B5: the credit / price models are built only when the corresponding input is .Provided: the reader must set that flag for every
+    # supplied figure, including one equal to the default (shared with C07 V9)
+    from gxstat.runner import Renamed
+    from rules.c07 import check_reader_arm
+    rp = repo.module('geophires_x/Parameter.py').functions.get('ReadParameter')
+    ctx.require(rp is not None, 'Parameter.ReadParameter not found')
+    gated = [n for n in ast.walk(econ.node) if isinstance(n, ast.If) and '.Provided' in norm(n.test) and
+             any('BuildPTCModel' in norm(c.func) for c in calls_in(n))]
+    ctx.floor('B5', len(gated), 1, 'PTC models gated on .Provided')
+    n0 = len(ctx.obligations)
+    check_reader_arm(Renamed(ctx, {'V9': 'B5'}), rp, 'floatParameter', 'float')
+    ctx.floor('B5', len(ctx.obligations) - n0, 2, 'reader obligations behind the .Provided gate')
+    # B6: the inputs of the schedule (start / end price, escalation start and rate, credit price, duration ...) are what the user stated:
+    # apart from the reader nothing assigns them
+    args = set()
+    for f_ in (econ, sbt):
+        for c in calls_in(f_.node):
+            if (dotted_name(c.func) or '').split('.')[-1] in ('BuildPricingModel', 'BuildPTCModel'):
+                for a in list(c.args) + [k.value for k in c.keywords]:
+                    for x in ast.walk(a):
+                        if isinstance(x, ast.Attribute) and x.attr == 'value' and norm(x).startswith('self.'):
+                            args.add(norm(x))
+    ctx.floor('B6', len(args), 12, 'schedule inputs passed to the price / credit model builders')
+    ctx.analysed['schedule_inputs'] = sorted(args)
+    for cn in ('Economics', 'SBTEconomics', 'SUTRAEconomics', 'AGSEconomics', 'EconomicsAddOns'):
+        for ci in repo.classes.get(cn, []):
+            for m in ci.methods.values():
+                for st in ast.walk(m.node):
+                    if isinstance(st, (ast.Assign, ast.AugAssign)):
+                        for t in (st.targets if isinstance(st, ast.Assign) else [st.target]):
+                            if norm(t) in args:
+                                ctx.bad('B6', f'{m.qualname}/overwrites:{norm(t)}', f'{m.module.rel}:{st.lineno}',
+                                        f'`{norm(st)[:100]}` replaces a schedule input after it was read: the price / credit series is then built '
+                                        f'from a figure the user did not state (e.g. the stated ending price no longer caps the price)')
+    ctx.ok('B6', 'schedule-inputs/only-the-reader-assigns-them', econ.where, f'{len(args)} inputs; every other store is reported individually')
     ctx.undecided('float rounding', 'PTC duration longer than the lifetime is outside the quantifier (IndexError at run time)')
